@@ -394,10 +394,7 @@ func (t *tracker) Has(id []byte, ts int64) (bool, error) {
 	t.lock.Lock()
 	defer t.lock.Unlock()
 
-	if ts >= t.list.ts+t.list.th {
-		return false, nil
-	}
-	if t.locators != nil {
+	if t.locators != nil && ts < t.list.ts+t.list.th {
 		if _, ok := t.locators[string(id)] ; ok {
 			return true, nil
 		}
